@@ -111,6 +111,9 @@ func genCase(t *rapid.T, thorough bool) Case {
 	base := gen.Tree(t, baseOpts(thorough))
 	c := Case{Ref: base, RefAlt: gen.Represent(t, base), Tips: rapid.Bool().Draw(t, "tips"), Ident: rapid.IntRange(0, 3).Draw(t, "ident") == 0}
 	n := rapid.IntRange(1, 5).Draw(t, "ncomp")
+	if rapid.IntRange(0, 19).Draw(t, "manycomp") == 0 {
+		n = rapid.IntRange(11, 30).Draw(t, "ncompmany") // longer streams (more than 10 trees)
+	}
 	for i := 0; i < n; i++ {
 		m, class := genComp(t, base)
 		c.Comps = append(c.Comps, m)
